@@ -448,7 +448,10 @@ class EvalMixin:
                 return FuncVal(m)  # unbound
             ca = cls.find_class_attr(self.repo, name)
             if ca is not None:
-                return self.eval(ca[1], Frame(None, ca[0].module))
+                key = (ca[0].qualname, name)
+                if key not in self.class_state:
+                    self.class_state[key] = self.eval(ca[1], Frame(None, ca[0].module))
+                return self.class_state[key]
             if name == "__name__":
                 return cls.name
             if name == "__wrapped__":
